@@ -17,7 +17,18 @@ Record dobs := mkDObs {
   o_run : bool;                 (* the Run goroutine is alive *)
   o_dw : Z;                     (* live writer goroutines *)
   o_keys : list Z;              (* registered keys, sorted *)
-  o_crash : bool }.             (* a panic was caught *)
+  o_crash : bool;               (* a panic was caught *)
+  o_ctl : Z }.                  (* Demux.Cancel / Demux.Stop calls that have not returned at this quiescent point
+                                   (the rig issues them on goroutines of their own). The model's Cancel and Stop
+                                   are single atomic steps: always 0. A Cancel that waits for a hand-off in
+                                   progress, for a consumer that is not reading, or for another key's traffic
+                                   shows here, and as reason 5. *)
+
+(* the virtual clock advances (time.Sleep inside the bubble) and nothing else happens: the model has no timers,
+   so for it this is the no-op action - cancelling a call that does not exist (the rig never makes 9999 calls).
+   A timer that a change of the code introduces ("wait at most 50 ms, then drop") fires here and shows as a
+   difference. *)
+Definition ATick : act := ACancelCall 9999.
 
 Inductive c18case :=
 | CDemux (acts : list act) (observed : list dobs)
@@ -116,7 +127,8 @@ Definition predict (prev s : state) : dobs :=
          (match rn s with RNDead => false | _ => true end)
          (Z.of_nat (length (filter (fun x => match c_dw x with DWDead => false | _ => true end) (conns s))))
          (sort_by zleb (map c_key (filter c_reg (conns s))))
-         (crashed s).
+         (crashed s)
+         0.
 
 Definition count {A} (f : A -> A -> bool) (x : A) (l : list A) : nat := length (filter (f x) l).
 Definition multiset_eqb {A} (f : A -> A -> bool) (a b : list A) : bool :=
@@ -130,7 +142,8 @@ Definition obs_eqb (a b : dobs) : bool :=
   && multiset_eqb Z.eqb (o_pending a) (o_pending b)
   && Bool.eqb (o_run a) (o_run b) && (o_dw a =? o_dw b)
   && list_eqb Z.eqb (sort_by zleb (o_keys a)) (sort_by zleb (o_keys b))
-  && Bool.eqb (o_crash a) (o_crash b).
+  && Bool.eqb (o_crash a) (o_crash b)
+  && (o_ctl a =? o_ctl b).
 
 Fixpoint agree_from (i : nat) (cands : list state) (acts : list act) (observed : list dobs) : option nat :=
   match acts, observed with
@@ -334,6 +347,8 @@ Definition spec_cancel (acts : list act) (observed : list dobs) : bool :=
   let cs := calls_of 0 0 acts observed in
   let is := insts_of 0 [] acts observed in
   forallb (fun o => negb (o_crash o)) observed
+  (* Cancel(key) and Stop return: whatever the consumers of this or any other key are (not) doing *)
+  && forallb (fun o => o_ctl o =? 0) observed
   && (fix chk (step : nat) (obs : list dobs) : bool :=
         match obs with
         | [] => true
